@@ -26,7 +26,9 @@ def cone(ctx, facts):
     roots = [facts.one(A.DB + "::add"), facts.one(A.DB + "::add_batch"), facts.one(A.SB + "::insert")]
     # add_batch builds the inner dispatcher: building (pool creation, wiring) places nothing
     build = facts.one(A.DB + "::build")
-    return facts.cone(roots, stop=lambda b: b.key == build.key)
+    # calls through std traits (IntoIterator, Clone, Debug, ..) are followed where they resolve; an unresolved one in generic
+    # code is not taken to reach every in-crate impl of that trait (an `IntoIterator for &World` somewhere is not placement code)
+    return facts.cone(roots, stop=lambda b: b.key == build.key, foreign_traits=False)
 
 
 def _sorted_for_dedup(ctx, facts, b):
